@@ -130,10 +130,12 @@ func (o *Overlay) Process(env *network.Envelope) {
 // io is the messageProxy to use if a specific wireformat protocol is used.
 // It can be nil: in that case it falls back to the default wire protocol.
 func (o *Overlay) TransmitMsg(onetMsg *ProtocolMsg, io MessageProxy) error {
-	if onetMsg == nil || onetMsg.To == nil || onetMsg.From == nil {
-		return xerrors.New("protocol message without destination or sender token")
+	if onetMsg == nil || onetMsg.To == nil {
+		return xerrors.New("protocol message without destination token")
 	}
-	log.TraceID(onetMsg.From.RoundID[:])
+	if onetMsg.From != nil {
+		log.TraceID(onetMsg.From.RoundID[:])
+	}
 	log.Lvl3("got new message of type:", onetMsg.MsgType)
 	// Get the tree if it exists and prevent any pending deletion
 	// if required. The tree will be clean when this instance is
@@ -287,7 +289,7 @@ func (o *Overlay) checkPendingTreeMarshal(el *Roster) {
 		return
 	}
 	for _, tm := range sl {
-		if !o.treeStorage.IsRequested(tm.TreeID) {
+		if o.treeStorage.Get(tm.TreeID) != nil {
 			// received in the meantime
 			continue
 		}
